@@ -107,6 +107,8 @@ func (e *ddEngine) keyOf(s *ddState, v ssa.Value) string {
 				return fmt.Sprint(a.i)
 			case kBool:
 				return fmt.Sprint(a.b)
+			case kStr:
+				return fmt.Sprintf("%q", a.s)
 			}
 		}
 		switch x := v.(type) {
@@ -215,6 +217,13 @@ type ddState struct {
 	// mem: what the last store on this path put into a local variable that is kept in memory (captured by a
 	// closure, a named result of a function that defers); only direct stores to the Alloc are tracked
 	mem map[*ssa.Alloc]aval
+	// memElem: the same for an element of a local array or a field of a local struct addressed with a known index
+	memElem map[elemKey]aval
+}
+
+type elemKey struct {
+	al  *ssa.Alloc
+	idx int64
 }
 
 func (s *ddState) clone() *ddState {
@@ -233,6 +242,12 @@ func (s *ddState) clone() *ddState {
 		n.mem = map[*ssa.Alloc]aval{}
 		for k, v := range s.mem {
 			n.mem[k] = v
+		}
+	}
+	if s.memElem != nil {
+		n.memElem = map[elemKey]aval{}
+		for k, v := range s.memElem {
+			n.memElem[k] = v
 		}
 	}
 	return n
@@ -381,6 +396,16 @@ func (e *ddEngine) evalInstr(s *ddState, in ssa.Instruction, prev *ssa.BasicBloc
 			}
 			s.mem[al] = a
 		}
+		if k, ok := e.elemOf(s, st.Addr); ok {
+			if s.memElem == nil {
+				s.memElem = map[elemKey]aval{}
+			}
+			a := e.value(s, st.Val)
+			if a.k == kSym && a.sym == nil {
+				a.sym = st.Val
+			}
+			s.memElem[k] = a
+		}
 		return
 	}
 	v, ok := in.(ssa.Value)
@@ -444,6 +469,14 @@ func (e *ddEngine) evalInstr(s *ddState, in ssa.Instruction, prev *ssa.BasicBloc
 			if a, ok := s.mem[al]; ok {
 				s.vals[x] = a
 				return
+			}
+		}
+		if x.Op == token.MUL {
+			if k, ok := e.elemOf(s, x.X); ok {
+				if a, ok := s.memElem[k]; ok {
+					s.vals[x] = a
+					return
+				}
 			}
 		}
 		a := e.value(s, x.X)
@@ -518,6 +551,17 @@ func (e *ddEngine) evalInstr(s *ddState, in ssa.Instruction, prev *ssa.BasicBloc
 		}
 		s.vals[v] = aval{k: kSym, sym: v}
 	case *ssa.Index:
+		// an element of a local array literal that was loaded as a whole (range over [...]T{…})
+		if u, ok := x.X.(*ssa.UnOp); ok && u.Op == token.MUL {
+			if al, ok := u.X.(*ssa.Alloc); ok {
+				if i := e.value(s, x.Index); i.k == kInt {
+					if a, ok := s.memElem[elemKey{al, i.i}]; ok {
+						s.vals[x] = a
+						return
+					}
+				}
+			}
+		}
 		a, i := e.value(s, x.X), e.value(s, x.Index)
 		if a.k == kStr && i.k == kInt && i.i >= 0 && int(i.i) < len(a.s) {
 			s.vals[x] = aval{k: kInt, i: int64(a.s[i.i])}
@@ -721,4 +765,23 @@ func switchCasesReturning(w *World, f *ssa.Function) map[int64]bool {
 		}
 	}
 	return out
+}
+
+// elemOf: addr is &local[i] (local array) or &local.f with i known on this path.
+func (e *ddEngine) elemOf(s *ddState, addr ssa.Value) (elemKey, bool) {
+	switch x := addr.(type) {
+	case *ssa.IndexAddr:
+		al, ok := x.X.(*ssa.Alloc)
+		if !ok {
+			return elemKey{}, false
+		}
+		if i := e.value(s, x.Index); i.k == kInt {
+			return elemKey{al, i.i}, true
+		}
+	case *ssa.FieldAddr:
+		if al, ok := x.X.(*ssa.Alloc); ok {
+			return elemKey{al, int64(x.Field)}, true
+		}
+	}
+	return elemKey{}, false
 }
